@@ -7,5 +7,7 @@ type syntaxQueryParamLiteral struct {
 func (l *syntaxQueryParamLiteral) compute(
 	_ interface{}, _ []interface{}) []interface{} {
 
-	return l.literal
+	// Comparators and type validators write into the list they receive,
+	// so never hand out the slice stored in the parsed tree.
+	return []interface{}{l.literal[0]}
 }
